@@ -14,6 +14,7 @@ import DateutilVerif.Proofs.RenderGenB
 import DateutilVerif.Proofs.RenderGenC
 import DateutilVerif.Proofs.RenderGenD
 import DateutilVerif.Proofs.RenderGenE
+import DateutilVerif.Proofs.RenderGenG
 import DateutilVerif.Proofs.RenderGenF
 
 namespace C15
@@ -659,7 +660,7 @@ example : ampmCount (Info.default false false 2024 2000) (lex asciiCls "10:30 am
 
   The class of sentences is DECIDABLE: any number of filler words (`PM.fillerWord`: ASCII letters; not `inf`/`nan`/`infinity`; in no
   stock parserinfo table; not shaped like a zone abbreviation), each followed by a space; one rendering from the C02 schema templates
-  (`PT.sentenceTemplates`: 21 ids — the 17 schema templates with a time of day and the ISO forms `YYYY-MM-DD[T ]HH:MM[:SS]` —, every valid datetime); any number of filler words, each after a space.  `PM.SentenceAnswer`
+  (`PT.sentenceTemplates`: 23 ids — the 19 schema templates with a time of day and the ISO forms `YYYY-MM-DD[T ]HH:MM[:SS]` —, every valid datetime); any number of filler words, each after a space.  `PM.SentenceAnswer`
   (Proofs/RenderSentence.lean) says: `parse(…, fuzzy=True)` and `parse(…, fuzzy_with_tokens=True)` return the datetime the rendering
   alone parses to (naive), and the token tuple is `_recombine_skipped` of a list of skipped indices that contains every token of the
   words in front and behind.  Proof: the scan over ANY number of filler tokens is an induction (`PM.inert_seg`); the scan over the
@@ -794,6 +795,18 @@ def SentenceThm (id : String) : Prop :=
       (hdf : o.dayfirst.getD false = false) (t dflt : DT) (ht : t.Valid) (hdv : dflt.Valid) (lead ws : List Token) (hlead : ∀ w ∈ lead, fillerWord w = true) (hws : ∀ w ∈ ws, fillerWord w = true),
       SentenceAnswer cls (Info.default false yf year century) o tznames tzi dflt (leadChars lead ++ PT.str_compact_nosep_min t (fillerChars ws)) ({ t with ss := dflt.ss, us := dflt.us })
         (leadToks lead).length ((leadToks lead).length + 1))
+  else if id = "eu_dot" then
+    (∀ (cls : Char → CClass) [AsciiOK cls] (yf : Bool) (year century : Int) (o : Opts) (tznames : List Token) (tzi : TzInfos)
+      (hf : (o.fuzzy || o.fuzzyWithTokens) = true) (htz1 : tzi.applies none = false) (htz2 : tzi.applies (some ['U', 'T', 'C']) = false)
+      (hdf : o.dayfirst.getD false = true) (hyf : o.yearfirst.getD yf = false) (t dflt : DT) (ht : t.Valid) (hdv : dflt.Valid) (lead ws : List Token) (hlead : ∀ w ∈ lead, fillerWord w = true) (hws : ∀ w ∈ ws, fillerWord w = true),
+      SentenceAnswer cls (Info.default false yf year century) o tznames tzi dflt (leadChars lead ++ PT.str_eu_dot t (fillerChars ws)) ({ t with ss := dflt.ss, us := dflt.us })
+        (leadToks lead).length ((leadToks lead).length + 9))
+  else if id = "long_ampm" then
+    (∀ (cls : Char → CClass) [AsciiOK cls] (yf : Bool) (year century : Int) (o : Opts) (tznames : List Token) (tzi : TzInfos)
+      (hf : (o.fuzzy || o.fuzzyWithTokens) = true) (htz1 : tzi.applies none = false) (htz2 : tzi.applies (some ['U', 'T', 'C']) = false)
+       (t dflt : DT) (ht : t.Valid) (hdv : dflt.Valid) (hy : 100 ≤ t.y) (lead ws : List Token) (hlead : ∀ w ∈ lead, fillerWord w = true) (hws : ∀ w ∈ ws, fillerWord w = true),
+      SentenceAnswer cls (Info.default false yf year century) o tznames tzi dflt (leadChars lead ++ PT.str_long_ampm t (fillerChars ws)) ({ t with us := 0 })
+        (leadToks lead).length ((leadToks lead).length + 14))
   else if id = "iso_sp_s" then
     (∀ (cls : Char → CClass) [AsciiOK cls] (yf : Bool) (year century : Int) (o : Opts) (tznames : List Token) (tzi : TzInfos)
       (hf : (o.fuzzy || o.fuzzyWithTokens) = true) (htz1 : tzi.applies none = false) (htz2 : tzi.applies (some ['U', 'T', 'C']) = false)
@@ -827,7 +840,7 @@ set_option maxHeartbeats 4000000 in
 theorem sentence_templates_have_theorems : ∀ p ∈ PT.sentenceTemplates, SentenceThm p := by
   intro p hp
   simp only [PT.sentenceTemplates, List.mem_cons, List.mem_nil_iff, or_false] at hp
-  rcases hp with rfl | rfl | rfl | rfl | rfl | rfl | rfl | rfl | rfl | rfl | rfl | rfl | rfl | rfl | rfl | rfl | rfl | rfl | rfl | rfl | rfl
+  rcases hp with rfl | rfl | rfl | rfl | rfl | rfl | rfl | rfl | rfl | rfl | rfl | rfl | rfl | rfl | rfl | rfl | rfl | rfl | rfl | rfl | rfl | rfl | rfl
   · show SentenceThm "us_slash"
     simp only [SentenceThm]
     exact fun cls _ yf year century o tznames tzi hf htz1 htz2 hdf hyf t dflt ht hdv lead ws hlead hws =>
@@ -896,6 +909,14 @@ theorem sentence_templates_have_theorems : ∀ p ∈ PT.sentenceTemplates, Sente
     simp only [SentenceThm]
     exact fun cls _ yf year century o tznames tzi hf htz1 htz2 hdf t dflt ht hdv lead ws hlead hws =>
       sentence_compact_nosep_min cls yf year century o tznames tzi hf htz1 htz2 hdf t dflt ht hdv lead ws hlead hws
+  · show SentenceThm "eu_dot"
+    simp only [SentenceThm]
+    exact fun cls _ yf year century o tznames tzi hf htz1 htz2 hdf hyf t dflt ht hdv lead ws hlead hws =>
+      sentence_eu_dot cls yf year century o tznames tzi hf htz1 htz2 hdf hyf t dflt ht hdv lead ws hlead hws
+  · show SentenceThm "long_ampm"
+    simp only [SentenceThm]
+    exact fun cls _ yf year century o tznames tzi hf htz1 htz2  t dflt ht hdv hy lead ws hlead hws =>
+      sentence_long_ampm cls yf year century o tznames tzi hf htz1 htz2  t dflt ht hdv hy lead ws hlead hws
   · show SentenceThm "iso_sp_s"
     simp only [SentenceThm]
     exact fun cls _ yf year century o tznames tzi hf htz1 htz2 hdf t dflt ht hdv lead ws hlead hws =>
